@@ -100,6 +100,21 @@ class AsForged(object):
         return ('method', a, b, c)
 
 
+class AsForgedClass(object):
+    """the CLASS is the subject: its __signature__ entry is the as_forged descriptor, which must still be there afterwards"""
+    __signature__ = specifiers.as_forged
+
+    def __init__(self, u, v=1):
+        pass
+
+    @specifiers.forwards_to_method('method')
+    def __call__(self, x, *args, **kwargs):
+        return self.method(*args, **kwargs)
+
+    def method(self, a, b, c=1):
+        return ('method', a, b, c)
+
+
 class WithInstanceSignature(object):
     def __init__(self):
         self.__signature__ = sigtools.signature(inner)
@@ -156,6 +171,7 @@ def make():
         'decorated_fn': decorated_fn,
         'wdecorated_fn': wdecorated_fn,
         'as_forged': AsForged(),
+        'as_forged_class': AsForgedClass,
         'instance_signature': WithInstanceSignature(),
         'with_getter': WithGetter(),
         'method_fwd': Methods().fwd,
